@@ -2,6 +2,7 @@ import Solstat.Wire
 import Solstat.Detectors
 import Solstat.Spec.Basic
 import Solstat.Spec.C05
+import Solstat.Spec.C07
 import Solstat.Gen.Patterns
 /-!
 # Correspondence-check plumbing (not part of the verified model)
@@ -134,6 +135,8 @@ def nodeSpecOf : String → Option NodeSpec
   | "shift_math_optimization" => some specShiftMath
   | "solidity_keccak256_optimization" => some specSolidityKeccak256
   | "solidity_math_optimization" => some specSolidityMath
+  | "unsafe_erc20_operation_vulnerability" => some specUnsafeErc20
+  | "floating_pragma_vulnerability" => some specFloatingPragma
   | _ => none
 
 /-- the property oracle on the implementation's output: every canonical form is reported, and
@@ -150,6 +153,24 @@ def nodeSpecOracle (s : NodeSpec) (f : T) (impl : List (Nat × Nat)) : Option St
   | [], [] => none
   | m :: _, _ => some s!"canonical form not reported: {nodeHead m}"
   | [], p :: _ => some s!"reported location {p.1}:{p.2} is not the location of a matching node"
+
+/-- divide_before_multiply: the reported set is exactly the set of chain instances -/
+def dbmOracleOn (f : T) (impl : List (Nat × Nat)) : Option String :=
+  let want := canonLocs ((T.allNodes f).filterMap fun n => if dbmOracle n then View.loc n else none)
+  if want == impl then none else some s!"expected {fmtLocs want}"
+
+/-- unprotected_selfdestruct: MUST / MUST NOT as the property words them -/
+def selfdestructOracleOn (f : T) (impl : List (Nat × Nat)) : Option String :=
+  let sites := selfdestructSites f
+  let locOf (c : T) : Option (Nat × Nat) := (View.loc c).map (fun l => (l.start, l.stop))
+  let missed := sites.filter fun (fields, body, c) =>
+    mustReport fields body && (match locOf c with | some p => !impl.contains p | none => false)
+  let spurious := impl.filter fun p =>
+    !(sites.any fun (fields, body, c) => locOf c == some p && !mustNotReport fields body)
+  match missed, spurious with
+  | [], [] => none
+  | (_, _, c) :: _, _ => some s!"unprotected call not reported: {nodeHead c}"
+  | [], p :: _ => some s!"reported {p.1}:{p.2} has no call site outside the must-not cases"
 
 def lookup {α : Type} (m : List (String × α)) (k : String) : Option α := (m.find? (fun e => e.1 == k)).map (·.2)
 
